@@ -18,7 +18,7 @@ def main():
     pid = a.prop.upper()
     if a.replay:
         data = json.load(open(a.replay))
-        v = kernel.replay_case(pid, data["case"])
+        v = kernel.replay_case(pid, data["case"], data.get("shard"))
         for x in v:
             print(x["msg"])
         if v:
